@@ -6,7 +6,7 @@ package redisemu
 // (C06), dirty marking (C19). The per-method blocks at the end are generated
 // by /verif/scripts/gen_store_contracts.py; the primitives are written by hand.
 
-//@ immutable dataStoreCommand.ds dataStore.data dataStore.waitingClients cmdContext.cs cmdContext.dsc cmdContext.cd cmdContext.multi cmdContext.args clientState.dss cmdDispatcher.dss
+//@ immutable dataStoreCommand.ds dataStore.waitingClients cmdContext.cs cmdContext.dsc cmdContext.cd cmdContext.multi cmdContext.args clientState.dss cmdDispatcher.dss
 // a table allocated during the current command and not (yet) reachable from the keyspace
 //@ ghostfield redisDict.scratch bool
 //@ ghost held bool
@@ -54,7 +54,7 @@ package redisemu
 // exclusively (EXEC); a command's own id is written only by itself, and no two
 // live commands share an id (newDataStoreCommand) — so from one command's point
 // of view "multiLock == my id" changes only through its own calls.
-//@ stable dataStore.multiLock dataStoreCommand.id redisDict.keyspace redisDict.owner redisDict.scratch
+//@ stable dataStore.data dataStore.multiLock dataStoreCommand.id redisDict.keyspace redisDict.owner redisDict.scratch
 // a command is either nested in its own exclusive section (lock held, multiLock
 // names it) or a normal command that does not hold the lock
 //@ pred lockMode(dsc *dataStoreCommand) = dsc.id != 0 && (held == (dsc.ds.multiLock == dsc.id))
